@@ -507,7 +507,9 @@ func ruleObject(m *evalModel, r *Report, e *Engine, reg map[*ssa.BasicBlock]bool
 }
 
 // ruleWrap: fmt.Errorf with an error-typed operand uses %w for it.
-func ruleWrap(w *World, r *Report) {
+func ruleWrap(w *World, r *Report) { ruleWrapAs(w, r, "C03.wrap") }
+
+func ruleWrapAs(w *World, r *Report, rule string) {
 	n := 0
 	errT := types.Universe.Lookup("error").Type()
 	for _, fn := range w.Funcs {
@@ -549,21 +551,21 @@ func ruleWrap(w *World, r *Report) {
 						v = verbs[i]
 					}
 					if reason, ok := exemptionsC03[w.fnName(fn)+" | fmt.Errorf "+format]; ok {
-						r.add("C03.wrap", fn, fmt.Sprintf("fmt.Errorf(%q) operand %d", format, i), c.Pos(), "exempt", reason)
+						r.add(rule, fn, fmt.Sprintf("fmt.Errorf(%q) operand %d", format, i), c.Pos(), "exempt", reason)
 						continue
 					}
 					// the same exemption by what the operand is rather than where it stands: the arity error the
 					// parameter binder has just created (through a helper's parameter: at every call site)
 					if binderErrorOnly(w, newEngine(w), a, 0) {
-						r.add("C03.wrap", fn, fmt.Sprintf("fmt.Errorf(%q) operand %d", format, i), c.Pos(), "exempt", exemptionsC03["lisp.EVAL | fmt.Errorf %s (around %s)"])
+						r.add(rule, fn, fmt.Sprintf("fmt.Errorf(%q) operand %d", format, i), c.Pos(), "exempt", exemptionsC03["lisp.EVAL | fmt.Errorf %s (around %s)"])
 						continue
 					}
-					r.check(v == 'w', "C03.wrap", fn, fmt.Sprintf("fmt.Errorf(%q) operand %d", format, i), c.Pos(), "%w", fmt.Sprintf("error operand formatted with %%%c: the original is no longer reachable with errors.Is", v))
+					r.check(v == 'w', rule, fn, fmt.Sprintf("fmt.Errorf(%q) operand %d", format, i), c.Pos(), "%w", fmt.Sprintf("error operand formatted with %%%c: the original is no longer reachable with errors.Is", v))
 				}
 			}
 		}
 	}
-	r.floor("C03.wrap", "fmt.Errorf calls with an error operand", n, 3)
+	r.floor(rule, "fmt.Errorf calls with an error operand", n, 3)
 }
 
 func formatVerbs(f string) []byte {
@@ -1038,6 +1040,7 @@ func checkC08(w *World, r *Report) {
 	}
 	r.floor("C08.iter", "evaluating calls before the dispatch", n, 3)
 	macroTailRule(w, r, "C08.lisp")
+	stepperDefaultRule(w, r, m, "C08.stepper-default")
 	// closures stay closures: the loop continues only for MalFunc operators
 	r.rule("C08.no-trampoline", "no builtin creates, while a program runs, a Go function value (types.Func) whose body applies a lisp closure it captured: such a wrapper hides the closure from the evaluation loop, so every tail call through it nests Apply and EVAL on the host stack (a closure with metadata, a decorated closure must stay a MalFunc)")
 	{
@@ -2149,7 +2152,19 @@ func checkC18(w *World, r *Report) {
 			stepperG = mem
 		}
 		nsr := 0
-		for _, fn := range m.evalFuncs() {
+		inEval := map[*ssa.Function]bool{}
+		scan := append([]*ssa.Function{}, m.evalFuncs()...)
+		for _, fn := range scan {
+			inEval[fn] = true
+		}
+		// ... and by no other code that runs while a program is evaluated (a helper of the evaluator that builds
+		// forms, a builtin): what such code does must not depend on a stepper being installed
+		for _, fn := range w.Funcs {
+			if !inEval[fn] && !isTestFunc(w, fn) && runtimePkg(fnPkgPath(fn)) {
+				scan = append(scan, fn)
+			}
+		}
+		for _, fn := range scan {
 			for _, b := range fn.Blocks {
 				for _, in := range b.Instrs {
 					ld, ok := in.(*ssa.UnOp)
@@ -2164,6 +2179,10 @@ func checkC18(w *World, r *Report) {
 					root := fn
 					for root.Parent() != nil {
 						root = root.Parent()
+					}
+					if !inEval[fn] {
+						r.check(m.stepBlocks[b] || isStepHelper[root], "C18.stepper-reads", fn, "read of "+g.Name(), ld.Pos(), "in the stepping code of EVAL", "the stepper's presence (or a stepping flag) is consulted by code outside the evaluator's stepping sections: what that code builds or answers depends on whether a stepper is installed, so programs need not compute the same")
+						continue
 					}
 					okPlace := m.stepBlocks[b] || isStepHelper[root] || (fn == m.EVAL && m.regionOf(b) == "" && !m.defaultRegion[b]) || (fn == m.EVAL && m.isLoopBottom(b)) || (m.isCore(fn) && b == fn.Blocks[0])
 					r.check(okPlace, "C18.stepper-reads", fn, "read of "+g.Name(), ld.Pos(), "in the stepping code of EVAL", "the stepper's presence (or a stepping flag) is consulted inside a special form"+nz(" ("+m.regionOf(b)+")", "")+": that form takes another path when a stepper is installed, so programs need not compute the same")
@@ -3404,4 +3423,57 @@ func unwrapRule(w *World, r *Report, m *evalModel, e *Engine, rule string) {
 	}
 	_ = m
 	r.check(okU && allU, rule, fn, "Unwrap", fn.Pos(), "every return is the stored object (when it is an error) or nil", "Unwrap returns something other than the stored error on some path (a link of the chain is skipped): errors.Is / errors.As no longer see the error that was returned or thrown")
+}
+
+// stepperDefaultRule: with a stepper installed EVAL leaves its loop and recurses for every tail form (the
+// stepping continuation), so tail calls cost host stack.  That mode is for debugging sessions: the Stepper
+// variable is nil unless a session was started by a call - it has no initial value and is never assigned while
+// packages are initialised (importing the debugger must not put every program of the binary into stepping mode).
+func stepperDefaultRule(w *World, r *Report, m *evalModel, rule string) {
+	r.rule(rule, "the evaluator's Stepper variable is nil until a debugging session is started by a call: it is assigned in no package initialiser (init function or package-level variable initialiser) and in nothing such an initialiser calls - importing a package never switches the evaluation loop of the whole program to the stepping mode, in which every tail call recurses")
+	g, _ := m.EVAL.Pkg.Members["Stepper"].(*ssa.Global)
+	if g == nil {
+		r.undecided(rule, nil, "Stepper", token.NoPos, "the package-level Stepper variable no longer resolves")
+		return
+	}
+	// functions run during package initialisation: the synthetic init of every package, the declared init
+	// functions, and what they call
+	var roots []*ssa.Function
+	for _, f := range w.Funcs {
+		if isTestFunc(w, f) || f.Parent() != nil || !inModule(f) {
+			continue
+		}
+		if f.Name() == "init" || strings.HasPrefix(f.Name(), "init#") {
+			roots = append(roots, f)
+		}
+	}
+	atInit := w.reachableFrom(roots)
+	for _, f := range roots {
+		atInit[f] = true
+	}
+	n := 0
+	for _, f := range w.Funcs {
+		if isTestFunc(w, f) || !inModule(f) {
+			continue
+		}
+		root := f
+		for root.Parent() != nil {
+			root = root.Parent()
+		}
+		for _, b := range f.Blocks {
+			for _, in := range b.Instrs {
+				st, ok := in.(*ssa.Store)
+				if !ok || st.Addr != ssa.Value(g) {
+					continue
+				}
+				n++
+				if isNilConst(st.Val) {
+					r.ok(rule, f, "assignment of nil to Stepper", st.Pos(), "switches stepping off")
+					continue
+				}
+				r.check(!atInit[root] && !atInit[f], rule, f, "assignment to Stepper", st.Pos(), "in a function that a debugging session calls, not during package initialisation", "a stepper is installed while packages are initialised: every program of a binary that merely links this package runs with Stepper != nil, where EVAL leaves its loop and recurses for every tail call - tail-recursive programs grow the host stack")
+			}
+		}
+	}
+	r.floor(rule, "assignments to Stepper in the module", n, 1)
 }
